@@ -25,15 +25,68 @@ type PrintFn = unsafe extern "C" fn(i64);
 type SetHooksFn = unsafe extern "C" fn(unsafe extern "C" fn(*mut c_void, *const i64, c_int) -> i64, unsafe extern "C" fn(c_int, *const c_void, usize) -> isize);
 type LastCallocFn = unsafe extern "C" fn() -> u64;
 
+/// one compiled runtime (driver for k parameters + io.c + shim); loaded afresh for every simulated
+/// process and unloaded at its end, so that constructors, destructors and static state behave as
+/// in a real process
 pub struct Lib {
+    so: CString,
+}
+
+pub struct Open {
+    h: *mut c_void,
     pub main: MainFn,
     pub print_i64: PrintFn,
     pub println_i64: PrintFn,
     pub last_calloc: LastCallocFn,
+    /// handlers registered with atexit (simulated process end)
+    pub run_atexit: unsafe extern "C" fn(),
+}
+
+impl Lib {
+    /// start of a simulated process
+    pub unsafe fn open(&self) -> Open {
+        unsafe {
+            let h = libc::dlopen(self.so.as_ptr(), libc::RTLD_NOW | libc::RTLD_LOCAL);
+            assert!(!h.is_null(), "dlopen {:?} failed", self.so);
+            let sym = |n: &str| -> *mut c_void {
+                let c = CString::new(n).unwrap();
+                let p = libc::dlsym(h, c.as_ptr());
+                assert!(!p.is_null(), "symbol {n} missing");
+                p
+            };
+            let set: SetHooksFn = std::mem::transmute(sym("sim_set_hooks"));
+            set(asm_hook, write_hook);
+            Open {
+                h,
+                main: std::mem::transmute::<*mut c_void, MainFn>(sym("sim_call_main")),
+                print_i64: std::mem::transmute::<*mut c_void, PrintFn>(sym("print_i64")),
+                println_i64: std::mem::transmute::<*mut c_void, PrintFn>(sym("println_i64")),
+                last_calloc: std::mem::transmute::<*mut c_void, LastCallocFn>(sym("sim_last_calloc")),
+                run_atexit: std::mem::transmute::<*mut c_void, unsafe extern "C" fn()>(sym("sim_run_atexit")),
+            }
+        }
+    }
+}
+
+impl Open {
+    /// end of the simulated process: atexit handlers, then unloading (ELF destructors)
+    pub unsafe fn close(self) {
+        unsafe {
+            (self.run_atexit)();
+            libc::dlclose(self.h);
+        }
+    }
 }
 
 pub struct CRuntime {
     pub libs: Vec<Lib>,
+    dir: String,
+}
+
+impl Drop for CRuntime {
+    fn drop(&mut self) {
+        let _ = std::fs::remove_dir_all(&self.dir);
+    }
 }
 
 fn shim_text(k: usize) -> String {
@@ -54,6 +107,21 @@ ssize_t sim_write(int fd, const void *buf, size_t n) {{ return write_hook(fd, bu
 void *sim_calloc(size_t n, size_t sz) {{ last_n = n; last_sz = sz; return dummy_heap; }}
 void sim_free(void *p) {{ (void)p; }}
 uint64_t sim_last_calloc(void) {{ return last_n * last_sz; }}
+/* process exit is simulated: handlers registered with atexit run when the driver's main returns or
+   calls exit, while the job that started the "process" is still current */
+#include <setjmp.h>
+static void (*exit_handlers[32])(void);
+static int n_exit_handlers;
+static jmp_buf exit_jmp;
+static int exit_code;
+int sim_atexit(void (*f)(void)) {{ if (n_exit_handlers < 32) {{ exit_handlers[n_exit_handlers++] = f; return 0; }} return -1; }}
+void sim_run_atexit(void) {{ while (n_exit_handlers > 0) exit_handlers[--n_exit_handlers](); }}
+void sim_exit(int c) {{ sim_run_atexit(); exit_code = c; longjmp(exit_jmp, 1); }}
+int scc_driver_main(int argc, char **argv);
+int sim_call_main(int argc, char **argv) {{
+  if (setjmp(exit_jmp) == 0) {{ int r = scc_driver_main(argc, argv); sim_run_atexit(); return r; }}
+  return exit_code;
+}}
 int asm_main_shim(void *heap{params}) asm("asm_main");
 int asm_main_shim(void *heap{params}) {{
   int64_t args[] = {{ 0{comma}{arr} }};
@@ -88,7 +156,7 @@ impl CRuntime {
                     }
                     Ok(())
                 };
-                let defs = ["-Dmain=scc_driver_main", "-Dwrite=sim_write", "-Dcalloc=sim_calloc", "-Dfree=sim_free"];
+                let defs = ["-Dmain=scc_driver_main", "-Dwrite=sim_write", "-Dcalloc=sim_calloc", "-Dfree=sim_free", "-Datexit=sim_atexit", "-Dexit=sim_exit"];
                 let mut a: Vec<String> = vec!["-fPIC".into(), "-O1".into(), "-w".into(), "-c".into(), format!("driver{k}.c"), "-o".into(), format!("driver{k}.o")];
                 a.extend(defs.iter().map(|s| s.to_string()));
                 run(&a.iter().map(|s| s.as_str()).collect::<Vec<_>>())?;
@@ -98,33 +166,31 @@ impl CRuntime {
                 run(&["-fPIC", "-O1", "-c", &format!("shim{k}.c"), "-o", &format!("shim{k}.o")])?;
                 let so = format!("{dir}/libdrv{k}.so");
                 run(&["-shared", "-o", &so, &format!("driver{k}.o"), &format!("io{k}.o"), &format!("shim{k}.o")])?;
+                let lib = Lib { so: CString::new(so.clone()).unwrap() };
+                // trial load: every symbol must be there
                 unsafe {
-                    let cso = CString::new(so.clone()).unwrap();
-                    let h = libc::dlopen(cso.as_ptr(), libc::RTLD_NOW | libc::RTLD_LOCAL);
+                    let h = libc::dlopen(lib.so.as_ptr(), libc::RTLD_NOW | libc::RTLD_LOCAL);
                     if h.is_null() {
                         return Err(format!("dlopen {so} failed"));
                     }
-                    let sym = |n: &str| -> Result<*mut c_void, String> {
+                    for n in ["sim_set_hooks", "sim_call_main", "print_i64", "println_i64", "sim_last_calloc", "sim_run_atexit"] {
                         let c = CString::new(n).unwrap();
-                        let p = libc::dlsym(h, c.as_ptr());
-                        if p.is_null() { Err(format!("symbol {n} missing in {so}")) } else { Ok(p) }
-                    };
-                    let set: SetHooksFn = std::mem::transmute(sym("sim_set_hooks")?);
-                    set(asm_hook, write_hook);
-                    libs.push(Lib {
-                        main: std::mem::transmute::<*mut c_void, MainFn>(sym("scc_driver_main")?),
-                        print_i64: std::mem::transmute::<*mut c_void, PrintFn>(sym("print_i64")?),
-                        println_i64: std::mem::transmute::<*mut c_void, PrintFn>(sym("println_i64")?),
-                        last_calloc: std::mem::transmute::<*mut c_void, LastCallocFn>(sym("sim_last_calloc")?),
-                    });
+                        if libc::dlsym(h, c.as_ptr()).is_null() {
+                            return Err(format!("symbol {n} missing in {so}"));
+                        }
+                    }
+                    libc::dlclose(h);
                 }
+                libs.push(lib);
             }
             Ok(())
         })();
         let _ = std::env::set_current_dir(old);
-        let _ = std::fs::remove_dir_all(&dir);
-        r?;
-        Ok(CRuntime { libs })
+        if let Err(e) = r {
+            let _ = std::fs::remove_dir_all(&dir);
+            return Err(e);
+        }
+        Ok(CRuntime { libs, dir })
     }
 }
 
@@ -146,6 +212,8 @@ static mut JOB: *mut Job = std::ptr::null_mut();
 /// P1 probe (never a verdict): the next `write` is short (half of the bytes) / interrupted (-1)
 static mut P1_FAULT: u8 = 0;
 static mut RT: *const CRuntime = std::ptr::null();
+/// the runtime instance of the current simulated process
+static mut CUR: *const Open = std::ptr::null();
 
 unsafe extern "C" fn write_hook(fd: c_int, buf: *const c_void, n: usize) -> isize {
     unsafe {
@@ -172,9 +240,7 @@ unsafe extern "C" fn write_hook(fd: c_int, buf: *const c_void, n: usize) -> isiz
 
 fn native_print(newline: bool, v: i64) {
     unsafe {
-        let j = &*JOB;
-        let rt: &CRuntime = &*RT;
-        let lib = &rt.libs[j.k];
+        let lib = &*CUR;
         if newline { (lib.println_i64)(v) } else { (lib.print_i64)(v) }
     }
 }
@@ -229,8 +295,12 @@ pub fn run_exe(rt: &CRuntime, prog: Option<x86::Prog>, k: usize, argv: &[String]
     unsafe {
         JOB = &mut job;
         RT = rt;
-        status = (rt.libs[k].main)(cargs.len() as c_int, ptrs.as_ptr());
-        calloc_bytes = (rt.libs[k].last_calloc)();
+        let o = rt.libs[k].open();
+        CUR = &o;
+        status = (o.main)(cargs.len() as c_int, ptrs.as_ptr());
+        calloc_bytes = (o.last_calloc)();
+        CUR = std::ptr::null();
+        o.close();
         JOB = std::ptr::null_mut();
     }
     ExeRun { stdout: job.stdout, status: status & 0xff, outcome: job.outcome, args_seen: job.args_seen, asm_main_calls: job.asm_main_calls, calloc_bytes, fds: job.fds }
@@ -253,10 +323,78 @@ pub fn run_print(rt: &CRuntime, newline: bool, v: i64) -> (Vec<u8>, u32, BTreeSe
     unsafe {
         JOB = &mut job;
         RT = rt;
+        let o = rt.libs[0].open();
+        CUR = &o;
         native_print(newline, v);
+        CUR = std::ptr::null();
+        o.close();
         JOB = std::ptr::null_mut();
     }
     (job.stdout, job.write_calls, job.fds)
+}
+
+/// a whole sequence of print calls in one "process", then its end
+pub fn run_print_stream(rt: &CRuntime, calls: &[(bool, i64)]) -> (Vec<u8>, BTreeSet<i32>) {
+    let mut job = Job {
+        prog: None,
+        plan: EnvPlan::benign(),
+        opts: ExecOpts { step_budget: 0, check_heap: false, record_snaps: 0, print_hook: None },
+        stdout: Vec::new(),
+        outcome: None,
+        args_seen: Vec::new(),
+        asm_main_calls: 0,
+        write_calls: 0,
+        fds: BTreeSet::new(),
+        k: 0,
+    };
+    unsafe {
+        JOB = &mut job;
+        RT = rt;
+        let o = rt.libs[0].open();
+        CUR = &o;
+        for (nl, v) in calls {
+            native_print(*nl, *v);
+        }
+        CUR = std::ptr::null();
+        o.close();
+        JOB = std::ptr::null_mut();
+    }
+    (job.stdout, job.fds)
+}
+
+/// the calls of a print stream, a pure function of (seed, run)
+pub fn print_stream_calls(seed: u64, run: u64) -> Vec<(bool, i64)> {
+    let mut rng = Rng::keyed(seed, run, "x-print-stream");
+    if rng.pct(35) {
+        // boundary mode: text without a newline up to a few bytes short of a power of two (where a
+        // buffer of that size would be full), then the longest possible line
+        let size = 1usize << (6 + rng.below(9));
+        let pending = size - rng.below(26);
+        let mut calls = Vec::new();
+        let mut len = 0;
+        while len < pending {
+            let left = pending - len;
+            // a non-negative value with exactly `d` digits
+            let d = if left <= 18 { left } else { 1 + rng.below(18) };
+            let lo = if d == 1 { 0 } else { 10i64.pow(d as u32 - 1) };
+            let hi = 10i64.pow(d as u32) - 1;
+            calls.push((false, rng.range(lo, hi)));
+            len += d;
+        }
+        calls.push((true, *rng.pick(&[i64::MIN, i64::MIN + 1, -1_000_000_000_000_000_000, -(i64::MAX), i64::MAX, 0])));
+        calls.push((rng.pct(50), boundary(&mut rng)));
+        return calls;
+    }
+    // long runs without a newline as well as mixed ones
+    let newline_pct = *rng.pick(&[0u32, 0, 1, 10, 50]);
+    let n = 1 + rng.below(if newline_pct == 0 { 700 } else { 300 });
+    let wide = rng.pct(50);
+    (0..n)
+        .map(|_| {
+            let v = if wide && rng.pct(40) { -(rng.range(1_000_000_000_000_000_000, i64::MAX)) } else { boundary(&mut rng) };
+            (rng.pct(newline_pct), v)
+        })
+        .collect()
 }
 
 /// P1 probe: what the print primitives do when `write` is short or interrupted once.
@@ -708,7 +846,7 @@ fn probe_driver(dir: &str, step: usize, k: usize, text: &str, heap_mb: u64) -> R
     };
     let co = format!("{dir}/probe{step}.o");
     let sho = format!("{dir}/probe{step}_shim.o");
-    if !run(&["-fPIC", "-O1", "-w", "-c", &c, "-o", &co, "-Dmain=scc_driver_main", "-Dwrite=sim_write", "-Dcalloc=sim_calloc", "-Dfree=sim_free"])? {
+    if !run(&["-fPIC", "-O1", "-w", "-c", &c, "-o", &co, "-Dmain=scc_driver_main", "-Dwrite=sim_write", "-Dcalloc=sim_calloc", "-Dfree=sim_free", "-Datexit=sim_atexit", "-Dexit=sim_exit"])? {
         return Ok(Some("does not compile".into()));
     }
     if !run(&["-fPIC", "-O1", "-c", &sh, "-o", &sho])? {
@@ -728,7 +866,7 @@ fn probe_driver(dir: &str, step: usize, k: usize, text: &str, heap_mb: u64) -> R
             let c = CString::new(n).unwrap();
             libc::dlsym(h, c.as_ptr())
         };
-        let (set, main, lc) = (sym("sim_set_hooks"), sym("scc_driver_main"), sym("sim_last_calloc"));
+        let (set, main, lc) = (sym("sim_set_hooks"), sym("sim_call_main"), sym("sim_last_calloc"));
         if set.is_null() || main.is_null() || lc.is_null() {
             return Err("probe symbols missing".into());
         }
@@ -907,6 +1045,43 @@ pub fn xworker(id: &str, tier: &str, seed: u64, w: u64, n: u64) -> i32 {
                     emit(serde_json::json!({"summary": sum}));
                     return 2;
                 }
+            }
+            i += n;
+            continue;
+        }
+        if id == "C20" && Rng::keyed(0, i, "stream-slot").next() % 16 == 3 {
+            // (a') a whole stream of print calls in one process (runtime state that survives from
+            // one call to the next, e.g. buffering, must not change what is written)
+            let calls = print_stream_calls(seed, i);
+            let (bytes, fds) = run_print_stream(&rt, &calls);
+            sum.stats.executions += 1;
+            sum.stats.native_print_calls += calls.len() as u64;
+            sum.stats.stdout_bytes += bytes.len() as u64;
+            *sum.stats.probes.entry("print streams".into()).or_default() += 1;
+            let mut want = Vec::new();
+            for (nl, v) in &calls {
+                funref::render_i64(&mut want, *nl, *v);
+            }
+            seen.insert(hash_str(&format!("stream{i}")));
+            if bytes != want || fds.iter().any(|f| *f != 1) {
+                let at = bytes.iter().zip(want.iter()).position(|(a, b)| a != b).unwrap_or(bytes.len().min(want.len()));
+                let rp = XReplay {
+                    engine: "X".into(),
+                    property: "C20".into(),
+                    class: "Print".into(),
+                    message: format!("a stream of {} print calls wrote {} bytes to fds {fds:?}, expected {} bytes; first difference at byte {at}", calls.len(), bytes.len(), want.len()),
+                    verif_seed: seed,
+                    run: i,
+                    kind: "print-stream".into(),
+                    source: String::new(),
+                    argv: vec![],
+                    plan: EnvPlan::benign(),
+                    minimised: true,
+                    unique_twin: None,
+                    deshadowed_twin: None,
+                    expected: None,
+                };
+                emit(serde_json::json!({"found": rp}));
             }
             i += n;
             continue;
@@ -1121,6 +1296,18 @@ pub fn replay_x(rt: &CRuntime, rp: &XReplay) -> Result<Option<(String, String)>,
             }
             Ok(None)
         }
+        "print-stream" => {
+            let calls = print_stream_calls(rp.verif_seed, rp.run);
+            let (bytes, fds) = run_print_stream(rt, &calls);
+            let mut want = Vec::new();
+            for (nl, v) in &calls {
+                funref::render_i64(&mut want, *nl, *v);
+            }
+            if bytes != want || fds.iter().any(|f| *f != 1) {
+                return Ok(Some(("Print".into(), format!("a stream of {} print calls wrote {} bytes, expected {} bytes", calls.len(), bytes.len(), want.len()))));
+            }
+            Ok(None)
+        }
         "driver-history" => {
             let mut rng = Rng::keyed(rp.verif_seed, rp.run, "x-workload");
             match driver_history(&mut rng, "replay") {
@@ -1175,7 +1362,7 @@ fn items(src: &str) -> Vec<String> {
 }
 
 pub fn minimise_x(rt: &CRuntime, rp: &mut XReplay, mut attempts: usize) {
-    if rp.kind == "print" || rp.kind == "argc" || rp.kind == "a64-args" || rp.kind == "driver-history" {
+    if rp.kind == "print" || rp.kind == "print-stream" || rp.kind == "argc" || rp.kind == "a64-args" || rp.kind == "driver-history" {
         return;
     }
     let same = |rt: &CRuntime, c: &XReplay, class: &str| -> Option<String> {
